@@ -44,6 +44,9 @@ type walker struct {
 type visitKey struct {
 	p uintptr
 	t reflect.Type
+	// ctx: an object that is not a definition is walked once per function it is reached from (an
+	// object shared between two functions may hold locals of only one of them)
+	ctx *ir.Func
 }
 
 func (w *walker) add(kind, format string, a ...interface{}) {
@@ -183,7 +186,7 @@ func (w *walker) fields(def reflect.Value, ctx *ir.Func) {
 			return
 		}
 		if def.Kind() == reflect.Ptr {
-			k := visitKey{def.Pointer(), def.Type()}
+			k := visitKey{def.Pointer(), def.Type(), nil}
 			if w.visited[k] {
 				return
 			}
@@ -357,7 +360,7 @@ func (w *walker) value(v reflect.Value, ctx *ir.Func) {
 			return
 		}
 		// unnamed type: enter (recursion always passes through a name)
-		k := visitKey{v.Pointer(), v.Type()}
+		k := visitKey{v.Pointer(), v.Type(), ctx}
 		if w.visited[k] {
 			return
 		}
@@ -379,7 +382,7 @@ func (w *walker) value(v reflect.Value, ctx *ir.Func) {
 		}
 	}
 	// any other pointer: enter once
-	k := visitKey{v.Pointer(), v.Type()}
+	k := visitKey{v.Pointer(), v.Type(), ctx}
 	if w.visited[k] {
 		return
 	}
